@@ -196,7 +196,8 @@ class Inliner:
         types = sorted(impls)
         name, trait = t.get("name"), t.get("trait")
         own = trait == tr
-        if own and any(name not in impls[T] for T in types):
+        provided = "%s::%s" % (tr, name)
+        if own and any(name not in impls[T] and provided not in facts.fns for T in types):
             return None
         line = t.get("line", 0)
         argc = len(t["args"])
@@ -218,8 +219,8 @@ class Inliner:
             {"t": "switch", "discr": mv(D), "dty": "isize", "targets": [[k, 1 + k] for k in range(n)], "otherwise": FALL})
         for k, T in enumerate(types):
             if own:
-                cdef = impls[T][name]
-                c = [x for x in facts.instances_of(cdef) if x["kind"] == "item"]
+                cdef = impls[T].get(name) or provided       # (an implementor that keeps the trait's default body)
+                c = [x for x in facts.instances_of(cdef) if x["kind"] == "item" and (name in impls[T] or ("<%s as " % T) in (x.get("name") or ""))]
                 call = {"t": "call", "callee": cdef, "callee_krate": "tiny_http", "gargs": [], "name": name, "res": cdef, "res_krate": "tiny_http", "res_kind": "item", "res_name": cdef}
                 if len(c) == 1:
                     call["syn_to"] = c[0]["id"]
@@ -378,7 +379,7 @@ class Inliner:
         iid = inst["id"] if inst else None
         for i, b in enumerate(rblocks):
             nb = {"cleanup": b["cleanup"], "stmts": [_ren_stmt(s, lb, pb) for s in b["stmts"]],
-                  "term": _ren_term(b["term"], lb, bb0, pb, unwind_to), "src": d, "inst": iid, "obb": i, "file": raw["file"], "depth": depth, "sites": site_stack}
+                  "term": _ren_term(b["term"], lb, bb0, pb, unwind_to), "src": d, "inst": iid, "obb": i, "file": raw.get("real_file", raw["file"]), "depth": depth, "sites": site_stack}
             if iid is None and eff_site is not None:
                 # a block of a body built here (or resolved below one): the call graph knows it only as part of the call it stands for
                 nb["eff_site"] = eff_site
